@@ -5,9 +5,12 @@ import (
 	"encoding/json"
 	"fmt"
 	"io"
+	"os"
 	"os/exec"
+	"strconv"
 	"strings"
 	"sync"
+	"syscall"
 	"time"
 
 	"verif/harness"
@@ -81,9 +84,24 @@ func (h *Harness) readLine(timeout time.Duration) (string, error) {
 		return r.s, r.err
 	case <-time.After(timeout):
 		h.dead = true
+		// ask the Go runtime of the harness for its goroutine stacks (they
+		// go to stderr, which the caller reports), then kill it
+		_ = h.cmd.Process.Signal(syscall.SIGQUIT)
+		time.Sleep(500 * time.Millisecond)
+		if dir := os.Getenv("VERIF_HANG_DUMP"); dir != "" {
+			_ = os.WriteFile(fmt.Sprintf("%s/harness-hang-%d.log", dir, h.cmd.Process.Pid), []byte(h.stderr.String()), 0o644)
+		}
 		_ = h.cmd.Process.Kill()
 		return "", fmt.Errorf("harness timeout after %s", timeout)
 	}
+}
+
+// caseTimeout is the time one case may take (VERIF_HARNESS_TIMEOUT seconds, default 60).
+func caseTimeout() time.Duration {
+	if v, err := strconv.Atoi(os.Getenv("VERIF_HARNESS_TIMEOUT")); err == nil && v > 0 {
+		return time.Duration(v) * time.Second
+	}
+	return 60 * time.Second
 }
 
 // Do sends one case and returns the observation.
@@ -101,10 +119,10 @@ func (h *Harness) Do(c *harness.Case) (*harness.Obs, error) {
 		h.dead = true
 		return nil, fmt.Errorf("harness write: %v\n%s", err, tailStr(h.stderr.String(), 2000))
 	}
-	line, err := h.readLine(60 * time.Second)
+	line, err := h.readLine(caseTimeout())
 	if err != nil {
 		h.dead = true
-		return nil, fmt.Errorf("harness read: %v\n%s", err, tailStr(h.stderr.String(), 2000))
+		return nil, fmt.Errorf("harness read: %v\n%s", err, tailStr(h.stderr.String(), 12000))
 	}
 	var o harness.Obs
 	if err := json.Unmarshal([]byte(line), &o); err != nil {
